@@ -148,6 +148,29 @@ def _gene_case(repo, it, S, spec):
                 k2, v2 = run(it, repo.fn("gene.cds:CDSInterval.translate"), [], {}, txs[want].fields["cds"])
                 if k1 != k2 or (k1 == "ok" and v1.fields["sequence"] != v2.fields["sequence"]):
                     out.append(("get_primary_protein", f"{desc}: primary protein differs from the primary member's translation", f"{q}.get_primary_protein"))
+    # a second gene around the same transcript objects (other order): the inferred primary is a function of that gene's own
+    # children, not of genes built earlier from them
+    if nflag == 0 and len(txs) > 1:
+        n += 1
+        rev = list(reversed(txs))
+        rmembers = list(reversed(members))
+
+        def rkey(j):
+            t = rmembers[j]
+            cds = sum(e - s_ for s_, e in t["cds"]) if t["cds"] else 0
+            return (-cds, -sum(e - s_ for s_, e in t["exons"]), j)
+        want2 = sorted(range(len(rmembers)), key=rkey)[0]
+        try:
+            g2 = mk_gene(it, rev, gene_id="g2", sequence_name="chr1", parent_or_seq_chunk_parent=parent)
+            prim2 = g2.fields.get("primary_transcript")
+            got2 = [j for j, t in enumerate(rev) if t is prim2]
+            if got2 != [want2]:
+                out.append(("primary transcript of a second gene on the same children", f"{desc}: a second gene built from the same transcript "
+                            f"objects in reverse order picks member {got2}; the documented choice among its children is member {want2} "
+                            f"({rev[want2].fields.get('transcript_id')})", f"{q}.__init__"))
+        except Raised as ex:
+            out.append(("primary transcript of a second gene on the same children", f"{desc}: building a second gene from the same transcript "
+                        f"objects raises {ex.exc_name} although no member is flagged primary by the caller", f"{q}.__init__"))
     # merged transcript / CDS: union of the children's chromosome blocks
     for acc, blocks in (("get_merged_transcript", [b for t in members for b in t["exons"]]),
                         ("get_merged_cds", [b for t in members if t["cds"] for b in t["cds"]])):
